@@ -256,7 +256,11 @@ type cbJob struct {
 	// reason != "": the job is a GET /authorize that is refused AFTER the redirect URI
 	// was accepted (the run is that request; nothing is prepared, nobody logs in)
 	reason, etype, desc, client string
-	held                        string // how the wait for the holding point ended (for readers)
+
+	// raw != nil: the authorization request goes out as these raw bytes (inbound.go);
+	// state is then only a placeholder
+	raw  *rawReq
+	held string // how the wait for the holding point ended (for readers)
 }
 
 // register makes redirect a registered redirect URI of the client; the two
@@ -284,6 +288,9 @@ func (x *runner) prep(j *cbJob) {
 	}
 	x.register(j.client, j.redirect)
 	q := url.Values{"client_id": {j.client}, "redirect_uri": {j.redirect}, "response_type": {j.rtype}, "scope": {"openid"}, "nonce": {j.nonce}}
+	if j.raw != nil {
+		j.state, j.statePresentEmpty = "", false
+	}
 	if j.state != "" || j.statePresentEmpty {
 		q.Set("state", j.state)
 	}
@@ -304,6 +311,8 @@ func (x *runner) prep(j *cbJob) {
 			q.Del("scope")
 		case "id_token_hint":
 			q.Set("id_token_hint", "eyJhbGciOiJSUzI1NiJ9.e30.c2ln")
+		case "rtype_missing":
+			q.Del("response_type")
 		case "rtype_unregistered": // client c11code has the code response type only
 		case "storage_error":
 			x.rstorage.mu.Lock()
@@ -314,11 +323,19 @@ func (x *runner) prep(j *cbJob) {
 			j.etype, j.desc = c.etype, c.desc
 		}
 		j.authorize = q.Encode()
+		if j.raw != nil {
+			j.raw.build(j.authorize)
+		}
 		j.prepared = true
 		return
 	}
 	j.authorize = q.Encode()
-	r1 := opfix.Do(x.routers[j.router], httptest.NewRequest("GET", opfix.Issuer+"/authorize?"+j.authorize, nil))
+	areq := httptest.NewRequest("GET", opfix.Issuer+"/authorize?"+j.authorize, nil)
+	if j.raw != nil {
+		j.raw.build(j.authorize)
+		areq = j.raw.request()
+	}
+	r1 := opfix.Do(x.routers[j.router], areq)
 	if r1.Panic != "" {
 		j.panicked = r1.Panic
 		return
@@ -366,6 +383,9 @@ func (x *runner) start(j *cbJob, g *gate) chan struct{} {
 	req := httptest.NewRequest("GET", opfix.Issuer+"/authorize/callback?id="+url.QueryEscape(j.reqID), nil)
 	if j.reason != "" {
 		req = httptest.NewRequest("GET", opfix.Issuer+"/authorize?"+j.authorize, nil)
+		if j.raw != nil {
+			req = j.raw.request()
+		}
 	}
 	go func() {
 		defer close(fin)
@@ -404,6 +424,13 @@ func (x *runner) finish(j *cbJob, fin chan struct{}) {
 // inTerm: the job as a Gallina input: a done job is the success flow, a job
 // whose user did not log in is AuthRequestError(interaction_required).
 func (x *runner) inTerm(j *cbJob) string {
+	if j.raw != nil {
+		return j.raw.wrap(x.inTermPlain(j))
+	}
+	return x.inTermPlain(j)
+}
+
+func (x *runner) inTermPlain(j *cbJob) string {
 	pt, _ := parsedTerm(j.redirect)
 	if j.reason != "" {
 		return emit.Ctor("IErr", emit.Str(j.redirect), pt, emit.Str(j.rtype), emit.Str(j.rmode), emit.Str(j.etype), emit.Str(j.desc),
@@ -457,10 +484,13 @@ func (x *runner) emitJob(j *cbJob, other string, extra ...string) {
 	if j.statePresentEmpty && j.state == "" {
 		tags = append(tags, "state=present_empty")
 	}
+	if j.raw != nil {
+		tags = append(tags, j.raw.tags()...)
+	}
 	tags = append(append(tags, j.extra...), extra...)
 	x.add(emit.Case{Input: in, Observed: obs, Tags: tags,
 		Human: map[string]any{"router": j.router.String(), "authorize": j.authorize, "redirect_uri": j.redirect, "response_type": j.rtype, "response_mode": j.rmode,
-			"state": j.state, "session_state": j.session, "logged_in": j.done, "status": j.status, "location": j.loc, "body": j.body, "hung": j.hung, "panic": j.panicked, "holding_point": j.held}})
+			"state": j.state, "session_state": j.session, "logged_in": j.done, "status": j.status, "location": j.loc, "body": j.body, "hung": j.hung, "panic": j.panicked, "holding_point": j.held, "raw": j.rawHuman()}})
 }
 
 // runJob: one callback on its own.
@@ -556,7 +586,14 @@ func (x *runner) calibrate() {
 	}
 }
 
-var refusalReasons = []string{"prompt_multi", "prompt_none", "scope_missing", "id_token_hint", "rtype_unregistered", "storage_error"}
+var refusalReasons = []string{"prompt_multi", "prompt_none", "scope_missing", "id_token_hint", "rtype_unregistered", "rtype_missing", "storage_error"}
+
+func (j *cbJob) rawHuman() any {
+	if j.raw == nil {
+		return nil
+	}
+	return map[string]any{"post": j.raw.post, "query": j.raw.query, "body": j.raw.body, "state_as_sent": j.raw.sent, "encoding": j.raw.enc}
+}
 
 // refusal: a GET /authorize job that the provider refuses for that reason.
 func (x *runner) refusal(router opfix.Router, reason, redirect, shapeName, rtype, rmode, state, class string, extra ...string) *cbJob {
@@ -569,6 +606,8 @@ func (x *runner) refusal(router opfix.Router, reason, redirect, shapeName, rtype
 		j.router = opfix.Provider
 	}
 	switch reason {
+	case "rtype_missing":
+		j.rtype = ""
 	case "rtype_unregistered":
 		j.client = "c11code"
 		if rtype == "code" {
